@@ -241,3 +241,5 @@ pub fn run_lists_exhaustive(out: &mut Out, cfg: &Cfg) {
         }
     }
 }
+
+pub fn zero_ids_pub(t: &Unifiable) -> String { term_str(&zero_ids(t)) }
